@@ -184,6 +184,10 @@ inline void group_pubins(const Cell &c, BarnettSmartVTMF_dlog *V, std::vector<Pu
 	// ("order2-input": recorded, not judged)
 	PubIn g; g.name = "group.g", g.target = V->g, g.sync = sy, g.tag = weak(c.T(K_ELEM, "group.g"), "order2-input"); out.push_back(g);
 	if (with_h) { PubIn h; h.name = "key.h", h.target = V->h, h.sync = sy, h.tag = weak(c.T(K_ELEM, "key.h"), "order2-input"); out.push_back(h); }
+	// the same two inputs changed *without* re-deriving the tables: the fixed-base power must refuse the foreign base
+	// (or the value is hashed), for every variant including -g
+	PubIn tg; tg.name = "foreign-base.g", tg.target = V->g, tg.tag = c.T(K_ELEM, "foreign-base.g"); out.push_back(tg);
+	if (with_h) { PubIn th; th.name = "foreign-base.h", th.target = V->h, th.tag = c.T(K_ELEM, "foreign-base.h"); out.push_back(th); }
 }
 inline PubIn pub_elem(const Cell &c, const std::string &name, mpz_ptr t, Kind k = K_ELEM)
 {
